@@ -1,3 +1,4 @@
 -- root of the WowVerif library: property theorems per property
 import WowVerif.Props.C04
 import WowVerif.Props.C17
+import WowVerif.Props.C18
